@@ -1114,8 +1114,6 @@ func (g *sockGen) junk(real bool) string {
 		}
 		return f
 	}
-	frameNow := func(f []string) []byte { return wireBytes(f) } // generation-time stamp: only for literal (mutated) bytes
-	_ = frameNow
 	stale := func(f []string) []byte {
 		for i := range f {
 			if f[i] == "52=@0" {
@@ -1253,8 +1251,12 @@ func (g *sockGen) junk(real bool) string {
 		}
 		return "jses:" + strings.Join(items, "+")
 	case 6: // a second Logon for the REAL session while it is connected (or, if it just dropped, one with a stale number)
+		// SendingTime is stale on purpose: a well-formed Logon of the real CompIDs with the expected number and a current
+		// time IS the counterparty (when the link happens to be down the acceptor takes it and the number is spent)
 		g.kinds = append(g.kinds, "junk.duplicate-logon")
-		return "jmsg:" + hexFields(logon(A, B))
+		f := logon(A, B)
+		f[5] = "52=20240101-00:00:00.000"
+		return "jmsg:" + hexFields(f)
 	case 7: // a non-Logon first message for the real session
 		g.kinds = append(g.kinds, "junk.real-session-non-logon")
 		return "jmsg:" + hexFields(g.hdr(r.pick([]string{"0", "D", "1", "2", "5"}), A, B, 1, "112=q", "9000=zz", "7=1", "16=0"))
@@ -1359,6 +1361,18 @@ func sockOpKinds(seed uint64, idx int, tier string, junk bool) (string, []string
 				ev = append(ev, "up")
 			}
 		}
+		// every round: a well-formed Logon addressed to a CompID the acceptor does not have (the validator lets it pass;
+		// with dyn=1 the acceptor creates that session instead of refusing it)
+		{
+			f := g.hdr("A", "A"+g.id, "Y"+g.id, 1, "98=0", "108=30")
+			if g.bs == "FIXT.1.1" {
+				f = append(f, "1137=9")
+			}
+			kind("junk.unknown-session")
+			ev = append(ev, "jmsg:"+hexFields(f))
+		}
+		// after all of it the connection is cut once more: the acceptor must take the real initiator's NEXT Logon
+		ev = append(ev, "cut")
 		ev = g.sends(ev)
 	} else {
 		// C05 flavour: faults of the link while both sides keep submitting
